@@ -2,6 +2,7 @@
 run over the lexer's token stream `Lex.allTokens`. -/
 import TgModel.PrepSpec
 import TgModel.Lemmas.PrepLemmas
+import TgModel.Lemmas.LexErrKind
 
 namespace Tg
 
@@ -83,6 +84,67 @@ theorem lexEat_not_eof (s : Src) (h : s.rest ≠ []) : (s.lexEat).1.kind ≠ .Eo
 theorem lexEat_rest_lt (s : Src) (h : s.rest ≠ []) : (s.lexEat).2.rest.length < s.rest.length := by
   simpa [lexEat] using Lex.next_rest_length_lt s.rest h
 
+theorem absTok_isErr (t : Tok) : (absTok t).isErr = (t.kind == .Error) := by
+  unfold absTok
+  split
+  · rename_i h; simp [PP.LK.isErr, h]
+  · rename_i h; simp [PP.LK.isErr, h]
+  · rename_i h; simp [PP.LK.isErr, h]
+  · rename_i h; simp [PP.LK.isErr, h]
+  · rename_i h; simp [PP.LK.isErr, h]
+  · rename_i h; simp [PP.LK.isErr, h]
+  · split
+    · rename_i h
+      have : t.kind ≠ .Error := by
+        intro he; rw [he] at h; exact absurd h (by decide)
+      simp [PP.LK.isErr, this]
+    · simp [PP.LK.isErr]
+
+/-- the lexer parks a message exactly with an `Error` token -/
+theorem lexEat_lexErr (s : Src) :
+    (s.lexEat).2.lexErr.isSome = (s.lexErr.isSome || ((s.lexEat).1.kind == .Error)) := by
+  simp only [lexEat]
+  cases he : (Lex.next s.rest).err with
+  | some m =>
+    have := Lex.next_err_kind s.rest (by simp [he])
+    simp [this]
+  | none =>
+    have : (Lex.next s.rest).kind ≠ .Error := by
+      intro hk; have := Lex.next_error_msg s.rest hk; simp [he] at this
+    simp [this]
+
+/-- the refinement relation: the abstract state is the concrete one, the lexer's parked message
+reduced to "there is one" -/
+structure R (st : PP.PS) (s : Src) : Prop where
+  macros : st.macros = s.macros
+  opens : st.opens = s.openConds
+  err : st.err = s.prepErr
+  lex : st.lexErr = s.lexErr.isSome
+
+/-- the abstract state of a concrete one -/
+def absState (s : Src) : PP.PS :=
+  { macros := s.macros, opens := s.openConds, err := s.prepErr, lexErr := s.lexErr.isSome }
+
+theorem R_absState (s : Src) : R (absState s) s := ⟨rfl, rfl, rfl, rfl⟩
+
+theorem R_init (text : List Char) : R { macros := [] } (Src.init text) := ⟨rfl, rfl, rfl, rfl⟩
+
+theorem R_lexEat {st : PP.PS} {s : Src} (h : R st s) :
+    R (st.lexed (absTok (s.lexEat).1)) (s.lexEat).2 :=
+  ⟨h.macros, h.opens, h.err, by
+    show (st.lexErr || (absTok (s.lexEat).1).isErr) = _
+    rw [lexEat_lexErr, absTok_isErr, h.lex]⟩
+
+theorem R_lexEat_plain {st : PP.PS} {s : Src} (h : R st s) (hk : (s.lexEat).1.kind ≠ .Error) :
+    R st (s.lexEat).2 :=
+  ⟨h.macros, h.opens, h.err, by rw [lexEat_lexErr, h.lex]; simp [hk]⟩
+
+theorem eofMsg_eq : PP.eofMsg = Tg.eofMsg := rfl
+
+/-- `PreProcessor::error` on both sides: whatever was parked before, afterwards exactly `m` is -/
+theorem R_error {st : PP.PS} {s : Src} (hm : st.macros = s.macros) (ho : st.opens = s.openConds)
+    (m : String) : R (st.error m) (s.error m) := ⟨hm, ho, rfl, rfl⟩
+
 /-- `next_not_trivia` refines the abstract one -/
 theorem nnt_refine (fuel : Nat) (s : Src) (racc : List Char) (hf : s.rest.length < fuel) :
     (∀ k, (PP.nextNotTrivia (absToks s.rest)).1 = some k →
@@ -90,7 +152,10 @@ theorem nnt_refine (fuel : Nat) (s : Src) (racc : List Char) (hf : s.rest.length
     ((PP.nextNotTrivia (absToks s.rest)).1 = none → (nextNotTrivia fuel s racc).2.1.kind = .Eof) ∧
     absToks (nextNotTrivia fuel s racc).2.2.rest = (PP.nextNotTrivia (absToks s.rest)).2 ∧
     (nextNotTrivia fuel s racc).2.2.macros = s.macros ∧
-    (nextNotTrivia fuel s racc).2.2.prepErr = s.prepErr := by
+    (nextNotTrivia fuel s racc).2.2.prepErr = s.prepErr ∧
+    (nextNotTrivia fuel s racc).2.2.openConds = s.openConds ∧
+    (nextNotTrivia fuel s racc).2.2.lexErr.isSome =
+      (s.lexErr.isSome || ((nextNotTrivia fuel s racc).2.1.kind == .Error)) := by
   induction fuel generalizing s racc with
   | zero => omega
   | succ n ih =>
@@ -98,19 +163,23 @@ theorem nnt_refine (fuel : Nat) (s : Src) (racc : List Char) (hf : s.rest.length
     · obtain ⟨hk, hrest⟩ := lexEat_nil s hr
       have hnt : (s.lexEat).1.kind.isTrivia = false := by rw [hk]; rfl
       simp only [nextNotTrivia, hnt, Bool.false_eq_true, if_false]
-      simp [absToks, hr, hrest, Lex.allTokens_nil, PP.nextNotTrivia, hk, lexEat_macros, lexEat_prepErr]
+      simp [absToks, hr, hrest, Lex.allTokens_nil, PP.nextNotTrivia, hk, lexEat_macros, lexEat_prepErr,
+        lexEat_openConds, lexEat_lexErr]
     · have ha := absToks_lexEat s hr
       have hlt := lexEat_rest_lt s hr
       by_cases htr : (s.lexEat).1.kind.isTrivia = true
       · simp only [nextNotTrivia, htr, if_true]
         have := ih (s.lexEat).2 ((s.lexEat).1.text.reverseAux racc) (by omega)
+        have hne : ((s.lexEat).1.kind == TokenKind.Error) = false := by
+          cases hk : (s.lexEat).1.kind <;> simp_all [TokenKind.isTrivia]
         rw [ha, absTok_trivia _ htr]
-        simpa [PP.nextNotTrivia, PP.LK.isTrivia, lexEat_macros, lexEat_prepErr] using this
+        simpa [PP.nextNotTrivia, PP.LK.isTrivia, lexEat_macros, lexEat_prepErr, lexEat_openConds,
+          lexEat_lexErr, hne] using this
       · simp only [Bool.not_eq_true] at htr
         simp only [nextNotTrivia, htr, Bool.false_eq_true, if_false]
         rw [ha]
         simp only [PP.nextNotTrivia, absTok_not_trivia _ htr, Bool.false_eq_true, if_false]
-        refine ⟨?_, by simp, by simp, lexEat_macros s, lexEat_prepErr s⟩
+        refine ⟨?_, by simp, by simp, lexEat_macros s, lexEat_prepErr s, lexEat_openConds s, lexEat_lexErr s⟩
         intro k hk
         simp only [Option.some.injEq] at hk
         exact ⟨hk, lexEat_not_eof s hr⟩
@@ -128,17 +197,27 @@ theorem eatUntil_plain (t : Tok) (d : Nat) (r : List PP.LK)
   · simp [PP.eatUntil]
   · split <;> simp [PP.eatUntil]
 
-/-- `eat_until_else_or_endif` refines the abstract one -/
+/-- how the skip loop ended, abstractly -/
+def endAbs : SkipEnd → PP.End
+  | .Else => .else_
+  | .Endif => .endif
+  | .Eof => .eof
+
+/-- the loop of `eat_until_else_or_endif` refines the abstract one -/
 theorem eu_refine (fuel depth : Nat) (s : Src) (racc : List Char) (hf : s.rest.length < fuel) :
-    absToks (eatUntil fuel depth s racc).2.rest = (PP.eatUntil depth (absToks s.rest)).1 ∧
-    (eatUntil fuel depth s racc).2.macros = s.macros := by
+    absToks (eatUntil fuel depth s racc).2.1.rest = (PP.eatUntil depth (absToks s.rest)).1 ∧
+    endAbs (eatUntil fuel depth s racc).2.2 = (PP.eatUntil depth (absToks s.rest)).2 ∧
+    (eatUntil fuel depth s racc).2.1.macros = s.macros ∧
+    (eatUntil fuel depth s racc).2.1.openConds = s.openConds ∧
+    (eatUntil fuel depth s racc).2.1.prepErr = s.prepErr := by
   induction fuel generalizing depth s racc with
   | zero => omega
   | succ n ih =>
     by_cases hr : s.rest = []
     · obtain ⟨hk, hrest⟩ := lexEat_nil s hr
       simp only [eatUntil, hk]
-      simp [absToks, hr, hrest, Lex.allTokens_nil, PP.eatUntil, lexEat_macros]
+      simp [absToks, hr, hrest, Lex.allTokens_nil, PP.eatUntil, lexEat_macros, lexEat_openConds,
+        lexEat_prepErr, endAbs]
     · have ha := absToks_lexEat s hr
       have hlt := lexEat_rest_lt s hr
       have hne := lexEat_not_eof s hr
@@ -146,21 +225,46 @@ theorem eu_refine (fuel depth : Nat) (s : Src) (racc : List Char) (hf : s.rest.l
       simp only [eatUntil]
       rw [ha]
       split
-      · rename_i hk; simp only [absTok, hk, PP.eatUntil]; simpa [lexEat_macros] using hrec (depth + 1)
-      · rename_i hk; simp only [absTok, hk, PP.eatUntil]; simpa [lexEat_macros] using hrec (depth + 1)
+      · rename_i hk; simp only [absTok, hk, PP.eatUntil]
+        simpa [lexEat_macros, lexEat_openConds, lexEat_prepErr] using hrec (depth + 1)
+      · rename_i hk; simp only [absTok, hk, PP.eatUntil]
+        simpa [lexEat_macros, lexEat_openConds, lexEat_prepErr] using hrec (depth + 1)
       · rename_i hk
         simp only [absTok, hk, PP.eatUntil]
         split
-        · simpa [lexEat_macros] using hrec (depth - 1)
-        · exact ⟨rfl, lexEat_macros s⟩
+        · simpa [lexEat_macros, lexEat_openConds, lexEat_prepErr] using hrec (depth - 1)
+        · exact ⟨rfl, rfl, lexEat_macros s, lexEat_openConds s, lexEat_prepErr s⟩
       · rename_i hk
         simp only [absTok, hk, PP.eatUntil]
         split
-        · rename_i hd; simp only [beq_iff_eq] at hd; simp [hd, lexEat_macros]
-        · rename_i hd; simp only [beq_iff_eq] at hd; simp only [hd, if_false]; simpa [lexEat_macros] using hrec depth
+        · rename_i hd; simp only [beq_iff_eq] at hd
+          simp [hd, lexEat_macros, lexEat_openConds, lexEat_prepErr, endAbs]
+        · rename_i hd; simp only [beq_iff_eq] at hd; simp only [hd, if_false]
+          simpa [lexEat_macros, lexEat_openConds, lexEat_prepErr] using hrec depth
       · rename_i hk; exact absurd hk hne
       · rename_i h1 h2 h3 h4 h5
-        rw [eatUntil_plain _ _ _ h1 h2 h3 h4]; simpa [lexEat_macros] using hrec depth
+        rw [eatUntil_plain _ _ _ h1 h2 h3 h4]
+        simpa [lexEat_macros, lexEat_openConds, lexEat_prepErr] using hrec depth
+
+/-- `eat_until_else_or_endif` with the caller's counter update refines `PP.skip` -/
+theorem skip_refine (fuel : Nat) (s : Src) (racc : List Char) (hf : s.rest.length < fuel)
+    (st : PP.PS) (h : R st s) :
+    absToks (reopen (skipCond fuel s racc).2.1 (skipCond fuel s racc).2.2).rest = (PP.skip st (absToks s.rest)).2 ∧
+    R (PP.skip st (absToks s.rest)).1 (reopen (skipCond fuel s racc).2.1 (skipCond fuel s racc).2.2) := by
+  obtain ⟨e1, e2, e3, e4, e5⟩ := eu_refine fuel 1 s racc hf
+  simp only [skipCond, reopen_rest, afterSkip_rest]
+  unfold PP.skip
+  cases hend : (eatUntil fuel 1 s racc).2.2 <;> rw [hend] at e2 <;> simp only [endAbs] at e2
+  all_goals
+    cases hab : PP.eatUntil 1 (absToks s.rest) with
+    | mk r' e =>
+      rw [hab] at e1 e2
+      simp only [] at e1 e2
+      subst e2
+      simp only []
+      refine ⟨e1, ?_⟩
+      constructor <;>
+        simp [reopen, afterSkip, Src.error, PP.PS.error, e3, e4, e5, h.macros, h.opens, h.err, eofMsg_eq]
 
 theorem absTok_id_iff (t : Tok) (m : List Char) : absTok t = .id m ↔ (t.kind = .Id ∧ t.text = m) := by
   unfold absTok
@@ -174,11 +278,23 @@ def KindRel (t : Tok) : PP.Out → Prop
   | .error => t.kind = .Error
   | .tok k => absTok t = k ∧ t.kind ≠ .PreProcessor ∧ t.kind ≠ .Eof
 
-theorem processIf_refine (ifdef : Bool) (d : Tok) (s : Src) (st : PP.PS) (hm : st.macros = s.macros) :
+theorem nameMsg_eq (ifdef : Bool) :
+    (if ifdef then "expected macro name after #ifdef" else "expected macro name after #ifndef") =
+      PP.nameMsg (!ifdef) := by
+  cases ifdef <;> rfl
+
+theorem processIf_refine (ifdef : Bool) (d : Tok) (s : Src) (st : PP.PS) (hR : R st s) :
     KindRel (processIf ifdef d s).1 (PP.processIf (!ifdef) st (absToks s.rest)).1 ∧
     absToks (processIf ifdef d s).2.rest = (PP.processIf (!ifdef) st (absToks s.rest)).2.2 ∧
-    (PP.processIf (!ifdef) st (absToks s.rest)).2.1.macros = (processIf ifdef d s).2.macros := by
-  obtain ⟨h1, h2, h3, h4, _⟩ := nnt_refine (fuelOf s) s d.text.reverse (by simp [fuelOf])
+    R (PP.processIf (!ifdef) st (absToks s.rest)).2.1 (processIf ifdef d s).2 := by
+  obtain ⟨h1, h2, h3, h4, h5, h6, h7⟩ := nnt_refine (fuelOf s) s d.text.reverse (by simp [fuelOf])
+  have hm := hR.macros
+  -- the state after `next_not_trivia`, when the token found is no `Error` token
+  have hR1 : (nextNotTrivia (fuelOf s) s d.text.reverse).2.1.kind ≠ .Error →
+      R st (nextNotTrivia (fuelOf s) s d.text.reverse).2.2 := by
+    intro hk
+    exact ⟨by rw [h4]; exact hm, by rw [h6]; exact hR.opens, by rw [h5]; exact hR.err,
+      by rw [h7, hR.lex]; simp [hk]⟩
   unfold processIf PP.processIf
   simp only []
   cases ha : PP.nextNotTrivia (absToks s.rest) with
@@ -188,13 +304,17 @@ theorem processIf_refine (ifdef : Bool) (d : Tok) (s : Src) (st : PP.PS) (hm : s
     cases ok with
     | none =>
       have hk := h2 rfl
-      simp [hk, KindRel, h3, hm, h4]
+      simp only [hk]
+      refine ⟨by simp [KindRel], by simpa using h3, ?_⟩
+      rw [nameMsg_eq]
+      exact R_error (by rw [h4]; exact hm) (by rw [h6]; exact hR.opens) _
     | some k =>
       obtain ⟨hk1, hk2⟩ := h1 k rfl
       by_cases hid : (nextNotTrivia (fuelOf s) s d.text.reverse).2.1.kind = .Id
       · have hk : k = .id (nextNotTrivia (fuelOf s) s d.text.reverse).2.1.text := by
           rw [← hk1]; exact (absTok_id_iff _ _).mpr ⟨hid, rfl⟩
         subst hk
+        have hR1' := hR1 (by rw [hid]; simp)
         simp only [hid, beq_self_eq_true, if_true]
         have hdis : PP.disabled st.macros (nextNotTrivia (fuelOf s) s d.text.reverse).2.1.text (!ifdef) =
             ((ifdef && !(nextNotTrivia (fuelOf s) s d.text.reverse).2.2.macros.contains (nextNotTrivia (fuelOf s) s d.text.reverse).2.1.text) ||
@@ -203,27 +323,35 @@ theorem processIf_refine (ifdef : Bool) (d : Tok) (s : Src) (st : PP.PS) (hm : s
           cases ifdef <;> cases (s.macros.contains _) <;> rfl
         rw [hdis]
         split
-        · obtain ⟨e1, e2⟩ := eu_refine (fuelOf (nextNotTrivia (fuelOf s) s d.text.reverse).2.2) 1
+        · obtain ⟨e1, e2⟩ := skip_refine (fuelOf (nextNotTrivia (fuelOf s) s d.text.reverse).2.2)
             (nextNotTrivia (fuelOf s) s d.text.reverse).2.2
             ((nextNotTrivia (fuelOf s) s d.text.reverse).2.1.text.reverseAux (nextNotTrivia (fuelOf s) s d.text.reverse).1)
-            (by simp [fuelOf])
-          rw [h3] at e1
-          simp only [List.reverseAux_eq] at e1 e2
-          simp [KindRel, e1, e2, h4, hm]
-        · simp [KindRel, h3, h4, hm]
+            (by simp [fuelOf]) st hR1'
+          rw [h3] at e1 e2
+          exact ⟨by simp [KindRel], e1, e2⟩
+        · refine ⟨by simp [KindRel], by simpa using h3, ?_⟩
+          exact ⟨hR1'.macros, by simp [hR1'.opens], hR1'.err, hR1'.lex⟩
       · have hne : ∀ m, k ≠ .id m := by
           intro m hm'; rw [← hk1] at hm'; exact hid ((absTok_id_iff _ _).mp hm').1
         have hbeq : ((nextNotTrivia (fuelOf s) s d.text.reverse).2.1.kind == TokenKind.Id) = false := by
           simpa using hid
         simp only [hbeq, Bool.false_eq_true, if_false]
-        cases k <;> simp_all [KindRel]
+        have hRe : R (st.error (PP.nameMsg (!ifdef)))
+            ((nextNotTrivia (fuelOf s) s d.text.reverse).2.2.error
+              (if ifdef then "expected macro name after #ifdef" else "expected macro name after #ifndef")) := by
+          rw [nameMsg_eq]
+          exact R_error (by rw [h4]; exact hm) (by rw [h6]; exact hR.opens) _
+        cases k with
+        | id m => exact absurd rfl (hne m)
+        | _ => exact ⟨by simp [KindRel], by simpa using h3, hRe⟩
 
 /-- abstract `#define` step (the `.define` arm of `PP.next`) -/
-theorem processDefine_refine (d : Tok) (s : Src) (st : PP.PS) (hm : st.macros = s.macros) :
+theorem processDefine_refine (d : Tok) (s : Src) (st : PP.PS) (hR : R st s) :
     KindRel (processDefine d s).1 (PP.next st (.define :: absToks s.rest)).1 ∧
     absToks (processDefine d s).2.rest = (PP.next st (.define :: absToks s.rest)).2.2 ∧
-    (PP.next st (.define :: absToks s.rest)).2.1.macros = (processDefine d s).2.macros := by
-  obtain ⟨h1, h2, h3, h4, _⟩ := nnt_refine (fuelOf s) s d.text.reverse (by simp [fuelOf])
+    R (PP.next st (.define :: absToks s.rest)).2.1 (processDefine d s).2 := by
+  obtain ⟨h1, h2, h3, h4, h5, h6, h7⟩ := nnt_refine (fuelOf s) s d.text.reverse (by simp [fuelOf])
+  have hm := hR.macros
   unfold processDefine
   simp only [PP.next]
   cases ha : PP.nextNotTrivia (absToks s.rest) with
@@ -233,24 +361,33 @@ theorem processDefine_refine (d : Tok) (s : Src) (st : PP.PS) (hm : st.macros = 
     cases ok with
     | none =>
       have hk := h2 rfl
-      simp [hk, KindRel, h3, hm, h4]
+      simp only [hk]
+      refine ⟨by simp [KindRel], by simpa using h3, ?_⟩
+      exact R_error (by rw [h4]; exact hm) (by rw [h6]; exact hR.opens) _
     | some k =>
       obtain ⟨hk1, hk2⟩ := h1 k rfl
       by_cases hid : (nextNotTrivia (fuelOf s) s d.text.reverse).2.1.kind = .Id
       · have hk : k = .id (nextNotTrivia (fuelOf s) s d.text.reverse).2.1.text := by
           rw [← hk1]; exact (absTok_id_iff _ _).mpr ⟨hid, rfl⟩
         subst hk
-        simp [hid, KindRel, h3, h4, hm]
+        simp only [hid, beq_self_eq_true, if_true]
+        refine ⟨by simp [KindRel], by simpa using h3, ?_⟩
+        exact ⟨by simp [h4, hm], by simp [h6, hR.opens], by simp [h5, hR.err], by simp [h7, hid, hR.lex]⟩
       · have hne : ∀ m, k ≠ .id m := by
           intro m hm'; rw [← hk1] at hm'; exact hid ((absTok_id_iff _ _).mp hm').1
         have hbeq : ((nextNotTrivia (fuelOf s) s d.text.reverse).2.1.kind == TokenKind.Id) = false := by
           simpa using hid
         simp only [hbeq, Bool.false_eq_true, if_false]
-        cases k <;> simp_all [KindRel]
+        have hRe : R (st.error PP.defineMsg)
+            ((nextNotTrivia (fuelOf s) s d.text.reverse).2.2.error "expected macro name after #define") :=
+          R_error (by rw [h4]; exact hm) (by rw [h6]; exact hR.opens) _
+        cases k with
+        | id m => exact absurd rfl (hne m)
+        | _ => exact ⟨by simp [KindRel], by simpa using h3, hRe⟩
 
 theorem next_plain (st : PP.PS) (t : Tok) (r : List PP.LK)
     (h1 : t.kind ≠ .Ifdef) (h2 : t.kind ≠ .Ifndef) (h3 : t.kind ≠ .Else) (h4 : t.kind ≠ .Endif)
-    (h5 : t.kind ≠ .Define) : PP.next st (absTok t :: r) = (.tok (absTok t), st, r) := by
+    (h5 : t.kind ≠ .Define) : PP.next st (absTok t :: r) = (.tok (absTok t), st.lexed (absTok t), r) := by
   unfold absTok
   split
   · rename_i h; exact absurd h h1
@@ -261,61 +398,77 @@ theorem next_plain (st : PP.PS) (t : Tok) (r : List PP.LK)
   · simp [PP.next]
   · split <;> simp [PP.next]
 
+theorem R_atEof {st : PP.PS} {s : Src} (h : R st s) : R (PP.atEof st) (atEof s) := by
+  unfold PP.atEof atEof
+  rw [h.opens, h.err]
+  split
+  · exact @R_error { st with opens := 0 } { s with openConds := 0 } h.macros rfl _
+  · exact h
+
 /-- **refinement**: one `PreProcessor::eat` is one abstract step over the lexer's token stream -/
-theorem eat_refine (s : Src) (st : PP.PS) (hm : st.macros = s.macros) :
+theorem eat_refine (s : Src) (st : PP.PS) (hR : R st s) :
     KindRel (s.eat).1 (PP.next st (absToks s.rest)).1 ∧
     absToks (s.eat).2.rest = (PP.next st (absToks s.rest)).2.2 ∧
-    (PP.next st (absToks s.rest)).2.1.macros = (s.eat).2.macros := by
+    R (PP.next st (absToks s.rest)).2.1 (s.eat).2 := by
   by_cases hr : s.rest = []
   · obtain ⟨hk, hrest⟩ := lexEat_nil s hr
+    have hR1 := R_atEof (R_lexEat_plain hR (by rw [hk]; simp))
     unfold eat
     cases hle : s.lexEat with
     | mk t s1 =>
-      rw [hle] at hk hrest
-      simp only [] at hk hrest ⊢
-      simp [hk, absToks, hr, Lex.allTokens_nil, PP.next, KindRel, hrest, hm]
-      have := lexEat_macros s; rw [hle] at this; exact this.symm
+      rw [hle] at hk hrest hR1
+      simp only [] at hk hrest hR1 ⊢
+      simp only [hk, absToks, hr, Lex.allTokens_nil, List.map_nil, PP.next, KindRel, atEof_rest, hrest]
+      exact ⟨trivial, trivial, hR1⟩
   · have ha := absToks_lexEat s hr
     have hne := lexEat_not_eof s hr
     have hpp : (s.lexEat).1.kind ≠ .PreProcessor := by simpa [lexEat] using Lex.next_not_pp s.rest
-    have hmac := lexEat_macros s
+    have hRl := @R_lexEat st s hR
+    have hRp := @R_lexEat_plain st s hR
     unfold eat
     rw [ha]
     cases hle : s.lexEat with
     | mk t s1 =>
-      rw [hle] at hne hpp hmac
-      simp only [] at hne hpp hmac ⊢
-      have hm1 : st.macros = s1.macros := by rw [hm, hmac]
+      rw [hle] at hne hpp hRl hRp
+      simp only [] at hne hpp hRl hRp ⊢
       split
       · rename_i hk
-        have := processIf_refine true t s1 st hm1
+        have := processIf_refine true t s1 st (hRp (by rw [hk]; simp))
         simpa [absTok, hk, PP.next] using this
       · rename_i hk
-        have := processIf_refine false t s1 st hm1
+        have := processIf_refine false t s1 st (hRp (by rw [hk]; simp))
         simpa [absTok, hk, PP.next] using this
       · rename_i hk
-        obtain ⟨e1, e2⟩ := eu_refine (fuelOf s1) 1 s1 t.text.reverse (by simp [fuelOf])
-        simp [absTok, hk, PP.next, KindRel, e1, e2, hm1]
+        have hR1 : R { st with opens := st.opens - 1 } { s1 with openConds := s1.openConds - 1 } := by
+          have := hRp (by rw [hk]; simp)
+          exact ⟨this.macros, by simp [this.opens], this.err, this.lex⟩
+        obtain ⟨e1, e2⟩ := skip_refine (fuelOf s1) { s1 with openConds := s1.openConds - 1 } t.text.reverse
+          (by simp [fuelOf]) _ hR1
+        simp only [absTok, hk, PP.next, KindRel]
+        exact ⟨trivial, e1, e2⟩
       · rename_i hk
-        simp [absTok, hk, PP.next, KindRel, hm1]
+        have := hRp (by rw [hk]; simp)
+        simp only [absTok, hk, PP.next, KindRel]
+        exact ⟨trivial, trivial, ⟨this.macros, by simp [this.opens], this.err, this.lex⟩⟩
       · rename_i hk
-        have := processDefine_refine t s1 st hm1
+        have := processDefine_refine t s1 st (hRp (by rw [hk]; simp))
         simpa [absTok, hk] using this
-      · rename_i h1 h2 h3 h4 h5
+      · rename_i hk; exact absurd hk hne
+      · rename_i h1 h2 h3 h4 h5 h6
         rw [next_plain st t _ h1 h2 h3 h4 h5]
-        exact ⟨⟨rfl, hpp, hne⟩, rfl, hm1⟩
+        exact ⟨⟨rfl, hpp, hne⟩, rfl, hRl⟩
 
 /-- delivered tokens that are not preprocessor trivia, abstracted -/
 def delivered (toks : List Tok) : List PP.LK :=
   (toks.filter (fun t => t.kind != .PreProcessor)).map absTok
 
-theorem runAll_refine (n : Nat) (s : Src) (st : PP.PS) (hm : st.macros = s.macros) (outs : List PP.Out)
+theorem runAll_refineR (n : Nat) (s : Src) (st : PP.PS) (hR : R st s) (outs : List PP.Out)
     (h : PP.runAll n st (absToks s.rest) = some outs) (hne : PP.noErr outs) :
     ∃ toks, runAll n s = some toks ∧ delivered toks = PP.plains outs := by
   induction n generalizing s st outs with
   | zero => simp [PP.runAll] at h
   | succ n ih =>
-    obtain ⟨hk, hrest, hmac⟩ := eat_refine s st hm
+    obtain ⟨hk, hrest, hmac⟩ := eat_refine s st hR
     simp only [PP.runAll] at h
     simp only [runAll]
     split at h
@@ -348,6 +501,80 @@ theorem runAll_refine (n : Nat) (s : Src) (st : PP.PS) (hm : st.macros = s.macro
         | tok k =>
           rw [ho] at hk; simp [KindRel] at hk
           simp [delivered, hk.2.1, hk.1, PP.plains] at hd ⊢; exact hd
+
+/-- what is delivered depends on the macro set only, so agreement on it is enough -/
+theorem runAll_refine (n : Nat) (s : Src) (st : PP.PS) (hm : st.macros = s.macros) (outs : List PP.Out)
+    (h : PP.runAll n st (absToks s.rest) = some outs) (hne : PP.noErr outs) :
+    ∃ toks, runAll n s = some toks ∧ delivered toks = PP.plains outs :=
+  runAll_refineR n s (absState s) (R_absState s) outs
+    (by rw [← PP.runAll_congr n st (absState s) hm]; exact h) hne
+
+theorem KindRel_isError {t : Tok} {o : PP.Out} (h : KindRel t o) : o.isError = (t.kind == .Error) := by
+  cases o with
+  | eof => simp only [KindRel] at h; simp [PP.Out.isError, h]
+  | pp => simp only [KindRel] at h; simp [PP.Out.isError, h]
+  | error => simp only [KindRel] at h; simp [PP.Out.isError, h]
+  | tok k => simp only [KindRel] at h; simp only [PP.Out.isError, ← h.1, absTok_isErr]
+
+theorem R_takeError {st : PP.PS} {s : Src} (h : R st s) : R (PP.take st) (s.takeError).2 := by
+  unfold PP.take takeError
+  rw [h.err]
+  cases hp : s.prepErr with
+  | some m => exact ⟨h.macros, h.opens, by simp, h.lex⟩
+  | none => exact ⟨h.macros, h.opens, by simp [h.err, hp], by simp⟩
+
+theorem R_pull {st : PP.PS} {s : Src} (h : R st s) {t : Tok} {o : PP.Out} (hk : KindRel t o) :
+    R (PP.pull o st) (pull t.kind s) := by
+  unfold PP.pull pull
+  rw [KindRel_isError hk]
+  split
+  · exact R_takeError h
+  · exact h
+
+theorem pull_rest (k : TokenKind) (s : Src) : (pull k s).rest = s.rest := by
+  unfold pull takeError
+  split
+  · split <;> rfl
+  · rfl
+
+/-- **refinement of whole runs**: a run of the abstract machine to `Eof` (under the parser's
+discipline of fetching the message of every `Error` token) is a run of the concrete model -/
+theorem drain_refine (n : Nat) (s : Src) (st : PP.PS) (hR : R st s) (fin : PP.PS)
+    (h : PP.drain n st (absToks s.rest) = some fin) :
+    ∃ s', drain n s = some s' ∧ R fin s' := by
+  induction n generalizing s st with
+  | zero => simp [PP.drain] at h
+  | succ n ih =>
+    obtain ⟨hk, hrest, hR'⟩ := eat_refine s st hR
+    simp only [PP.drain] at h
+    simp only [drain]
+    split at h
+    · rename_i heof
+      simp only [Option.some.injEq] at h; subst h
+      rw [heof] at hk
+      simp only [KindRel] at hk
+      exact ⟨_, by simp [hk], hR'⟩
+    · rename_i hneof
+      have hnoteof : ((s.eat).1.kind == TokenKind.Eof) = false := by
+        cases ho : (PP.next st (absToks s.rest)).1 with
+        | eof => exact absurd ho hneof
+        | pp => rw [ho] at hk; simp [KindRel] at hk; simp [hk]
+        | error => rw [ho] at hk; simp [KindRel] at hk; simp [hk]
+        | tok k => rw [ho] at hk; simp [KindRel] at hk; simpa using hk.2.2
+      simp only [hnoteof, Bool.false_eq_true, if_false]
+      exact ih _ _ (R_pull hR' hk) (by rw [pull_rest, hrest]; exact h)
+
+/-- what `take_error` answers, read off the abstract state -/
+theorem takeError_of_R {st : PP.PS} {s : Src} (h : R st s) :
+    (st.err = some PP.eofMsg → (s.takeError).1 = some eofMsg) ∧
+    (st.err = none → st.lexErr = false → (s.takeError).1 = none) := by
+  unfold takeError
+  constructor
+  · intro he; rw [h.err] at he; simp [he, eofMsg_eq]
+  · intro he hl
+    rw [h.err] at he; rw [h.lex] at hl
+    simp only [he]
+    simpa using hl
 
 end Src
 end Tg
